@@ -114,6 +114,30 @@ Section Geom.
     | [] => []
     | w :: r => let p := x +. bsx in p :: column_positions (p +. w) bsx r
     end.
+  (* ---- a table split across pages.  tableLayout runs once per page on the
+     same TableBox; the part laid out on a page (a shallow copy of the box made
+     by CopyWithChildren) keeps the SLICE HEADER table.ColumnPositions had at
+     that time.  Go slices: a header (array, length) into a store of arrays.
+     tables.go:35 `table.ColumnPositions = nil` followed by the appends of
+     40-47 allocates a fresh array on every call, so a later page never writes
+     into the array an earlier fragment points to.  A page = the content box x
+     of the table on that page and the column widths chosen there. *)
+  Record slice := mkSlice { sl_arr : nat; sl_len : nat }.
+  Definition store := list (list Q).
+  Definition slice_read (st : store) (s : slice) : list Q := firstn (sl_len s) (nth (sl_arr s) st []).
+  Definition layout_page (st : store) (bsx : Q) (page : Q * list Q) : store * slice :=
+    let ps := column_positions (fst page) bsx (snd page) in
+    (st ++ [ps], mkSlice (length st) (length ps)).
+  Fixpoint layout_pages (st : store) (bsx : Q) (pages : list (Q * list Q)) : store * list slice :=
+    match pages with
+    | [] => (st, [])
+    | p :: r => let '(st1, s) := layout_page st bsx p in
+                let '(st2, ss) := layout_pages st1 bsx r in (st2, s :: ss)
+    end.
+  (* what every fragment's ColumnPositions reads once ALL pages are laid out *)
+  Definition fragments_positions (bsx : Q) (pages : list (Q * list Q)) : list (list Q) :=
+    let '(st, ss) := layout_pages [] bsx pages in map (slice_read st) ss.
+
   Definition rows_width (x0 bsx : Q) (widths : list Q) : Q :=
     fold_left (fun p w => p +. bsx +. w) widths x0 -. (x0 +. bsx).                   (* 41-47 *)
 
